@@ -100,6 +100,20 @@ func unlockedWrites(c *Ctx, an *locks.Analysis) []string {
 				case *ssa.Convert:
 					a = x.X
 					continue
+				case *ssa.Global:
+					// package-level state: every goroutine that runs the function shares it
+					if strings.HasSuffix(x.Type().String(), "sync.Pool") {
+						return
+					}
+					held := 0
+					if fi != nil {
+						held = len(fi.MustIn[i])
+					}
+					held += len(an.Entry[fn])
+					if held == 0 {
+						out = append(out, fmt.Sprintf("global %s.%s in %s%s at %s", pkgShort(x.Pkg.Pkg), x.Name(), core.FuncName(fn), via, c.P.Pos(core.PosOf(i))))
+					}
+					return
 				case *ssa.FieldAddr:
 					owner := fieldOwner(x)
 					k := owner
